@@ -302,6 +302,10 @@ func init() {
 		if fullCoreSyms <= 0 {
 			fullCoreSyms = 4
 		}
+		bigSample, _ := strconv.Atoi(e.Args["bigsample"])
+		if bigSample <= 0 {
+			bigSample = 4
+		}
 		only := e.Args["only"] // optional: a single ecosystem name (replay)
 		workers := e.Workers
 		if workers < 1 {
@@ -318,7 +322,7 @@ func init() {
 				continue
 			}
 			t0 := time.Now()
-			sums = append(sums, runEco(ed, oracle[ed.family], strs, col, seed, workers, maxValid, aliasSyms, fullCoreSyms))
+			sums = append(sums, runEco(ed, oracle[ed.family], strs, col, seed, workers, maxValid, aliasSyms, fullCoreSyms, bigSample))
 			if e.Args["timing"] != "" {
 				fmt.Fprintf(os.Stderr, "[laws] %s: %.1fs\n", ed.name, time.Since(t0).Seconds())
 			}
@@ -351,7 +355,15 @@ func init() {
 	})
 }
 
-func runEco(ed ecoDef, ov []oracleVer, strs []strEntry, col *collector, seed int64, workers, maxValid, aliasSyms, fullCoreSyms int) ecoSummary {
+func fnv32(s string, seed int64) uint32 {
+	h := uint32(2166136261) ^ uint32(seed*2654435761)
+	for i := 0; i < len(s); i++ {
+		h = (h ^ uint32(s[i])) * 16777619
+	}
+	return h
+}
+
+func runEco(ed ecoDef, ov []oracleVer, strs []strEntry, col *collector, seed int64, workers, maxValid, aliasSyms, fullCoreSyms, bigSample int) ecoSummary {
 	eco := ed.name
 	sum := ecoSummary{Kind: "summary", Eco: eco, Family: ed.family}
 	rng := rand.New(rand.NewSource(seed*1000003 + int64(len(eco))*7919 + int64(eco[0])))
@@ -360,18 +372,20 @@ func runEco(ed ecoDef, ov []oracleVer, strs []strEntry, col *collector, seed int
 	}
 
 	// ---- (1) totality, antisymmetry, reflexivity on the arbitrary-string domain ----
-	var coreFull, coreSmall []string
+	var coreFull, coreSmall, coreTiny []string
 	for _, s := range strs {
 		if s.nsyms <= 2 {
 			coreFull = append(coreFull, s.s)
 		}
 		if s.nsyms <= 1 {
 			coreSmall = append(coreSmall, s.s)
+			coreTiny = append(coreTiny, s.s)
 		}
 	}
 	if len(ov) > 0 {
 		for _, i := range rng.Perm(len(ov))[:min(40, len(ov))] {
 			coreFull = append(coreFull, ov[i].s)
+			coreSmall = append(coreSmall, ov[i].s)
 		}
 	}
 	sum.Core = len(coreFull)
@@ -386,8 +400,15 @@ func runEco(ed ecoDef, ov []oracleVer, strs []strEntry, col *collector, seed int
 	parallelFor(len(dom), workers, func(i int) {
 		a := dom[i].s
 		core := coreFull
+		if !ed.primary {
+			core = coreSmall // aliases run the same function as their family's primary ecosystem
+		}
 		if dom[i].nsyms > fullCoreSyms {
-			core = coreSmall
+			// the longest strings: Parse and cmp(a,a) for all of them, the pairwise laws for a seeded 1/bigSample
+			core = nil
+			if fnv32(a, seed)%uint32(bigSample) == 0 {
+				core = coreTiny
+			}
 		}
 		var lc, lp, nz int64
 		// fast path: one recover for the whole row; on a panic the row is redone pair by pair
@@ -461,7 +482,7 @@ func runEco(ed ecoDef, ov []oracleVer, strs []strEntry, col *collector, seed int
 	sum.CanonN = len(g)
 	var extra []string
 	for _, s := range strs {
-		if s.valid[ed.family] && !seen[s.s] {
+		if ed.primary && s.valid[ed.family] && !seen[s.s] {
 			extra = append(extra, s.s)
 		}
 	}
